@@ -255,6 +255,12 @@ def eval_case(ctx, case):
            "syscall_events": len(r.events), "strace": strace}
     if r.panicked:
         return Verdict.violated("mockery crashed", dict(obs, **r.brief()), tags)
+    if inj and inj["stage"] == "template-truncated" and not blocked and not dir_clash:
+        # the fault must really have been injected: the helper logs the request it cut short (a stage that injects nothing decides nothing)
+        served = [q for q in server.requests_for("trunc/tr/%d" % case["i"]) if q.endswith(" 200")]
+        obs["truncated_transfers_served"] = len(served)
+        if not served and r.exit != 0 and "unexpected EOF" not in (r.err + r.out):
+            return Verdict.inconclusive("the truncated transfer was not served (%s)" % server.requests_for("trunc/tr/%d" % case["i"])[:2])
     designated = set(outputs.values())
     designated_dirs = set()
     for rel in designated:
